@@ -36,9 +36,16 @@ Hs(j) == [t |-> "hs", m |-> HsVals[j]]
 RecBase == << [ct |-> 22, ver |-> 771, msgs |-> <<Hs(1)>>], [ct |-> 22, ver |-> 769, msgs |-> <<Hs(NH - 2), Hs(5), Hs(500)>>],
               [ct |-> 20, ver |-> 771, msgs |-> <<[t |-> "ccs"]>>], [ct |-> 20, ver |-> 768, msgs |-> <<[t |-> "ccs"], [t |-> "ccs"]>>],
               [ct |-> 22, ver |-> 65277, msgs |-> <<Hs(440), Hs(470)>>], [ct |-> 22, ver |-> 771, msgs |-> <<Hs(490), Hs(477), Hs(NH - 2)>>] >>
+(* thorough: every ordered pair of a 24-message stride of the pool in one record *)
+PairBase == IF Thorough THEN Concat([x \in 1..24 |-> [y \in 1..24 |-> [ct |-> 22, ver |-> <<771, 769, 768>>[((x + y) % 3) + 1],
+                                                                       msgs |-> <<Hs(((x * 21) % (NH - 2)) + 1), Hs(((y * 23 + 7) % (NH - 2)) + 1)>>]]])
+            ELSE <<>>
 (* the length field of the value handed to the serializer is whatever the caller left there: 0, stale, or huge *)
-RecVals == Concat([q \in 1..Len(RecBase) |->
-             [l \in 1..4 |-> [ct |-> RecBase[q].ct, ver |-> RecBase[q].ver, msgs |-> RecBase[q].msgs, len |-> <<0, 1, 47, 65535>>[l]]]])
+RecAll == RecBase \o PairBase
+RecValsDef == Concat([q \in 1..Len(RecAll) |->
+             [l \in 1..4 |-> [ct |-> RecAll[q].ct, ver |-> RecAll[q].ver, msgs |-> RecAll[q].msgs, len |-> <<0, 1, 47, 65535>>[l]]]])
+ASSUME TLCSet(3, RecValsDef)
+RecVals == TLCGet(3)
 (* values obtained by parsing valid records (RFC encodings, e.g. without an extension block), then serialized *)
 FromBytes == [q \in 1..8 |->
   LET ms == <<<<Hs(1)>>, <<Hs(2)>>, <<Hs(300), Hs(NH - 2)>>, <<Hs(433)>>, <<Hs(440)>>, <<Hs(481)>>, <<Hs(485), Hs(1)>>, <<Hs(NH - 2), Hs(499)>>>>[q] IN
